@@ -288,7 +288,7 @@ impl Real {
             let mut v = Vec::new();
             match comp.open_stream(e.path()).and_then(|mut st| st.read_to_end(&mut v)) {
                 Ok(_) => s.push_str(&format!(" {}", hex(&v))),
-                Err(er) => s.push_str(&format!(" err-{}", err_kind(&er))),
+                Err(_) => s.push_str(" err"),
             }
         }
         s
